@@ -749,6 +749,26 @@ def plan_c10(P):
         if r.random() < 0.5:
             h_freeze(P, ops, a, partial_p=0.15)
             h_probe(P, ops, a, 1)
+    if r.random() < 0.2:
+        # two checkpoints of the same architecture with different contents, loaded one after the other into the
+        # same model; the first one is handed over in memory (its tensors are the source model's own)
+        a = deps[0]
+        if not a.frozen:
+            P.emit(ops, {"op": "freeze", "dep": a.id})
+            a.frozen = True
+        a2 = P.new_dep(ops, like=a, force={"weights": a.weights, "activations": a.activations})
+        if a2.activations is not None and r.random() < 0.6:
+            h_calibrate(P, ops, a2)
+        P.emit(ops, {"op": "freeze", "dep": a2.id})
+        a2.frozen = True
+        h_probe(P, ops, a, 1)
+        f1 = h_save(P, ops, a, ser=r.choice(["direct", "direct", "pickle_bytes"]))
+        f2 = h_save(P, ops, a2)
+        b = h_load(P, ops, f1, target="same", restart=False)
+        h_probe(P, ops, b, 1)
+        P.emit(ops, {"op": "load", "fid": f2, "new": b.id, "into": b.id, "target": "same", "assign": r.random() < 0.2, "weights_only": True, "init": 1})
+        h_probe(P, ops, a, 1)
+        h_save(P, ops, a)
     table = [("saveload", 8), ("load", 1.5), ("freeze", 1), ("probe", 1), ("wupdate", 0.7), ("calib", 0.7), ("state_dict", 0.7), ("newdep", 0.7), ("save", 0.7), ("to_dtype", 0.4), ("deepcopy", 0.3), ("to_cpu", 0.3)]
     lifecycle(P, ops, table, r.randint(2, 6), faults=bool(P.cfg.get("faults")))
     return ops
